@@ -963,13 +963,58 @@ func genOp(r *vh.Rng, curLen int, allowSortRand bool) Op {
 }
 
 func genCase(r *vh.Rng) Case {
-	switch r.Pick(78, 12, 10) {
+	switch r.Pick(64, 12, 10, 14) {
 	case 1:
 		return genSortCase(r)
 	case 2:
 		return genSwitchCase(r)
+	case 3:
+		return genGapCase(r)
 	}
 	return genPlainCase(r, nil)
+}
+
+// genGapCase: a hole-free plain array (the fast paths apply) is shrunk by splice / pop / length=, then an element is
+// written at newLength+k (k >= 1, within the old capacity), then the gap is read in every way; repeated 1-3 times
+func genGapCase(r *vh.Rng) Case {
+	var pre []Op
+	for round, n := 0, 1+r.Intn(3); round < n; round++ {
+		switch r.Pick(55, 20, 25) {
+		case 0:
+			dc := int64(2 + r.Intn(5))
+			op := Op{O: "splice", St: int64(r.Intn(4)), Dc: i64(dc)}
+			for i, m := 0, r.Intn(int(dc)-1); i < m; i++ {
+				op.Vs = append(op.Vs, genVal(r))
+			}
+			pre = append(pre, op)
+		case 1:
+			for i, m := 0, 2+r.Intn(3); i < m; i++ {
+				pre = append(pre, Op{O: "pop"})
+			}
+		case 2:
+			pre = append(pre, Op{O: "setlen", R: r.Chance(30), K: uint64(1 + r.Intn(5))})
+		}
+		pre = append(pre, Op{O: "set", R: r.Chance(30), Rl: true, K: uint64(1 + r.Intn(2)), V: uint64(41 + r.Intn(9))})
+		switch r.Pick(25, 20, 20, 20, 15) {
+		case 0:
+			pre = append(pre, Op{O: "includes", V: 0})
+		case 1:
+			pre = append(pre, Op{O: "slice", St: 0})
+		case 2:
+			pre = append(pre, Op{O: "export"})
+		case 3:
+			pre = append(pre, Op{O: "indexOf", V: genVal(r)})
+		case 4:
+			pre = append(pre, Op{O: "sort", Ck: 2})
+		}
+	}
+	c := genPlainCase(r, pre)
+	n0 := 7 + r.Intn(9)
+	c.Init = nil
+	for i := 0; i < n0; i++ {
+		c.Init = append(c.Init, u(uint64(1+r.Intn(40))))
+	}
+	return c
 }
 
 // genSortCase: 13..30 elements with tied keys (v mod 8) and distinguishable payloads, sorted repeatedly with the
